@@ -22,19 +22,22 @@ Tol == RNorm(1, 8192)
 MinOf(S) == CHOOSE m \in S : \A x \in S : m <= x
 MaxOf(S) == CHOOSE m \in S : \A x \in S : m >= x
 \* gain = base + weighted mean of the consequents of the active rules
-GainOK(k, e, ec, mk, base, logged) ==
+\* results in the default width are exact dyadics or 2^-16 approximations; in the float / long double builds every
+\* result is compared within 2^-13 (a float is always a short dyadic, exact or not)
+NearW(w, d, r) == IF w = 8 THEN Near(d, r) ELSE NearTol(d, r)
+GainOK(w, k, e, ec, mk, base, logged) ==
   LET \* rules that fire: both sets active and (for the six rational operators) a non-zero joint membership
       firing == {pr \in Pairs(e, ec, Sets3) : IF k \in 1..6 THEN Joint(k, e, ec, Sets3, pr[1], pr[2])[1] > 0 ELSE TRUE}
       act == {mk[pr[1]][pr[2]] : pr \in firing}
       val == RVal(logged) IN
   /\ logged[2] >= 0
-  /\ (IF act = {} THEN Near(logged, RQ(base))
+  /\ (IF act = {} THEN NearW(w, logged, RQ(base))
       ELSE /\ RLe(RSub(RQ(base + MinOf(act)), Tol), val) /\ RLe(val, RAdd(RQ(base + MaxOf(act)), Tol))     \* between smallest and largest consequent
-           /\ (k \in 1..6 => Near(logged, RAdd(RQ(base), GainDelta(k, e, ec, Sets3, mk)))))
+           /\ (k \in 1..6 => NearW(w, logged, RAdd(RQ(base), GainDelta(k, e, ec, Sets3, mk)))))
 
 \* the same rule stated over the memberships mue[i], muec[j] reported for each table entry (any kind of set):
 \* a set is active when its membership exceeds machine epsilon (logged as 0 otherwise)
-GainOKm(k, mue, muec, mk, base, logged) ==
+GainOKm(w, k, mue, muec, mk, base, logged) ==
   LET n == Len(mue)
       J(i, j) == Opr(k, RDy(mue[i]), RDy(muec[j]))
       firing == {pr \in (1..n) \X (1..n) : mue[pr[1]][1] > 0 /\ muec[pr[2]][1] > 0 /\ (k \in 1..6 => J(pr[1], pr[2])[1] > 0)}
@@ -45,15 +48,15 @@ GainOKm(k, mue, muec, mk, base, logged) ==
       val == RVal(logged) IN
   /\ logged[2] >= 0
   /\ \A i \in 1..n : mue[i][2] >= 0 /\ muec[i][2] >= 0                     \* memberships at the chosen points are exact dyadics
-  /\ (IF act = {} THEN Near(logged, RQ(base))
+  /\ (IF act = {} THEN NearW(w, logged, RQ(base))
       ELSE /\ RLe(RSub(RQ(base + MinOf(act)), Tol), val) /\ RLe(val, RAdd(RQ(base + MaxOf(act)), Tol))
-           /\ (k \in 1..6 => Near(logged, RAdd(RQ(base), RDiv(num, den)))))
+           /\ (k \in 1..6 => NearW(w, logged, RAdd(RQ(base), RDiv(num, den)))))
 
 RECURSIVE StepsOK(_, _, _, _)
 StepsOK(e, i, preverr, k) ==
   IF i > Len(e.steps) THEN TRUE
   ELSE LET s == e.steps[i]  err == RSub(RDy(s.set), RDy(s.fdb))  ec == RSub(err, preverr) IN
-       /\ GainOK(k, err, ec, MKP, e.base[1], s.kp) /\ GainOK(k, err, ec, MKI, e.base[2], s.ki) /\ GainOK(k, err, ec, MKD, e.base[3], s.kd)
+       /\ GainOK(e.width, k, err, ec, MKP, e.base[1], s.kp) /\ GainOK(e.width, k, err, ec, MKI, e.base[2], s.ki) /\ GainOK(e.width, k, err, ec, MKD, e.base[3], s.kd)
        /\ Fin(s.out) /\ Fin(s.sum)
        /\ DLe(e.lim_codes[1], s.out) /\ DLe(s.out, e.lim_codes[2])                \* output within the configured limits
        /\ StepsOK(e, i + 1, err, k)
@@ -83,8 +86,8 @@ Accept(e) ==
     [] e.f = "fpidk" ->
          /\ \A i \in 1..Len(e.steps) :
                LET s == e.steps[i] IN
-               /\ GainOKm(e.opr, s.mue, s.muec, MKP, e.base[1], s.kp) /\ GainOKm(e.opr, s.mue, s.muec, MKI, e.base[2], s.ki)
-               /\ GainOKm(e.opr, s.mue, s.muec, MKD, e.base[3], s.kd)
+               /\ GainOKm(e.width, e.opr, s.mue, s.muec, MKP, e.base[1], s.kp) /\ GainOKm(e.width, e.opr, s.mue, s.muec, MKI, e.base[2], s.ki)
+               /\ GainOKm(e.width, e.opr, s.mue, s.muec, MKD, e.base[3], s.kd)
                /\ Fin(s.out) /\ DLe(e.lim_codes[1], s.out) /\ DLe(s.out, e.lim_codes[2])
          /\ e.canary = 1
     [] e.f = "npid" ->
